@@ -35,7 +35,7 @@ from operon_ai.surveillance.innate import (InnateImmunity, TLRPattern, PAMPCateg
 ID = "C10"
 LEVEL = "exploration"
 ENGINE = "seq+threads"
-RUNS = {"quick": 16_000, "thorough": 900_000}
+RUNS = {"quick": 14_000, "thorough": 900_000}
 RULE = ("seeded histories (6-30 operations) over filter()/check() of pool inputs (an instance of each of the 19 "
         "membrane and 17 innate built-in signatures and of 10 generated substring/regex signatures, 5 case "
         "perturbations, embedding in benign prefix/suffix, benign text, control characters, lone surrogates, "
@@ -74,6 +74,8 @@ ASSUMPTIONS = [
     "inflammation cool-down (not in the statement text; DESIGN clause): a clean input reports LOW exactly while "
     "now < (reading of the last non-NONE response + decay), judged 1 ms away from the edge",
     "SHA-256 prefix collisions of the replay memory are ignored",
+    "an exception raised by the caller's own on_threat / on_inflammation observer is not a gate failure; the decision "
+    "the observer was shown must nevertheless be audited, remembered (replay memory) and start the cool-down",
     "threads family: pre-emption granularity is the source line; a call is admitted at some instant between its "
     "invocation and its return, so over-admission is reported only for a set of calls whose whole [clock at invoke, "
     "clock at return] intervals fit in one 60 s window; 'passed the rate check' = allowed or refused with a reported "
@@ -156,6 +158,8 @@ def build(d):
             return (FILLER * 5600)[:100_001]
         if d[1] == 1:
             return (FILLER * 5600)[:100_001] + " " + inner
+        if d[1] == 3:       # long but within every length limit, the instance at the very end
+            return (FILLER * 5600)[:70_000] + " " + inner
         return (inner + " " + FILLER * 5600)[:99_990]
     if kind == "ctl":
         return CTRL[d[1]]
@@ -256,7 +260,7 @@ def _inst(rng, kinds=("mi", "ii", "cu"), cu=None):
 
 
 def _hostile(rng):
-    h = weighted(rng, [(2, "ctl"), (2.5, "sur"), (1, "emp"), (4, "js"), (0.45, "long")])
+    h = weighted(rng, [(2, "ctl"), (2.5, "sur"), (1, "emp"), (4, "js"), (0.7, "long")])
     if h == "ctl":
         return ["ctl", rng.randrange(len(CTRL))]
     if h == "sur":
@@ -264,7 +268,7 @@ def _hostile(rng):
     if h == "emp":
         return ["emp"]
     if h == "long":
-        return ["long", rng.randrange(3), _inst(rng)]
+        return ["long", rng.choice([0, 1, 1, 2, 3, 3]), _inst(rng)]
     how = weighted(rng, [(3, "nest"), (2, "obj"), (1.5, "bigint"), (1, "arr_bigint"), (1, "valid"), (1, "withsig"),
                          (0.7, "float"), (1, "invalid")])
     n = {"nest": rng.choice([2, 4, 11, 12, 600, 5000, 5000, 20000, 50000]), "obj": rng.choice([3, 11, 600, 5000, 16000]),
